@@ -1004,6 +1004,19 @@ def b_any_all(name):
             return VBool(z3.And(ts) if ts else z3.BoolVal(True))
         # symbolic: t <=> forall j. kept(j) => truthy(elem(j)), given as two definitional axioms
         vs = as_vseq(I, s)
+        n_conc = concrete_int(VInt(vs.src_len)) if not isinstance(vs.src_len, int) else vs.src_len
+        if n_conc is not None and 0 <= n_conc <= 16:
+            # a comprehension over a container of known length: plain conjunction / disjunction
+            ts = []
+            for jj in range(n_conc):
+                tj = truthy(vs.elem(z3.IntVal(jj)))
+                if vs.pred is not None:
+                    pj = vs.pred(z3.IntVal(jj))
+                    tj = z3.Implies(pj, tj) if name == 'all' else z3.And(pj, tj)
+                ts.append(tj)
+            if name == 'any':
+                return VBool(z3.Or(ts) if ts else z3.BoolVal(False))
+            return VBool(z3.And(ts) if ts else z3.BoolVal(True))
         t = z3.Bool(fresh_name(name))
         j = z3.Int(fresh_name('q'))
         w = fresh_int('sk')
